@@ -1,17 +1,26 @@
-// further command families, one module each
+// further command families, one module (and one cargo feature) each
 use crate::*;
 
 pub fn dispatch(fields: &[&str]) -> String {
-    for d in [
+    let ds: Vec<fn(&[&str]) -> Option<String>> = vec![
+        #[cfg(feature = "cps")]
         cmd_cps::dispatch,
+        #[cfg(feature = "reason")]
         cmd_reason::dispatch,
+        #[cfg(feature = "segment")]
         cmd_segment::dispatch,
+        #[cfg(feature = "macro")]
         cmd_macro::dispatch,
+        #[cfg(feature = "tree")]
         cmd_tree::dispatch,
+        #[cfg(feature = "prover")]
         cmd_prover::dispatch,
+        #[cfg(feature = "oracle")]
         cmd_oracle::dispatch,
+        #[cfg(feature = "py")]
         cmd_py::dispatch,
-    ] {
+    ];
+    for d in ds {
         if let Some(a) = d(fields) {
             return a;
         }
